@@ -135,4 +135,84 @@ def boolSimplify (cl : List Tm) : Except Err Seq :=
     | mkAnd (mkImp p1 p2) p3, mkAnd q1 q2 => if p1 == p3 && p1 == q1 && p2 == q2 then .ok ⟨[], g⟩ else .error .verit
     | _, _ => .error .verit
 
+/-- `compare_ite`, the cases that hold at every type (1-4, 7, 8; 7 and 8 as fixed by C18-13).
+When both sides are if-then-else terms only cases 4, 7, 8 are tried, and a nested `then` branch
+decides for case 7 alone. -/
+def compareIteEv (i1 i2 : Tm) : Bool :=
+  match i1 with
+  | mkIte lP lT lE =>
+    match i2 with
+    | mkIte rP rT rE =>
+      if lP == mkNot rP && lT == rE && lE == rT then true
+      else match lT with
+        | mkIte tP tT _ => lP == tP && lP == rP && tT == rT && lE == rE
+        | _ => match lE with
+          | mkIte eP _ eE => lP == eP && lP == rP && lT == rT && eE == rE
+          | _ => false
+    | _ => (lP == tt && i2 == lT) || (lP == ff && i2 == lE) || (lT == lE && i2 == lT)
+  | _ => false
+
+/-- `compare_ite`, the boolean cases 9-16 (the right side is not an if-then-else) -/
+def compareIteBool (i1 i2 : Tm) : Bool :=
+  match i1 with
+  | mkIte lP lT lE =>
+    if isIf i2 then false else
+    (lT == tt && lE == ff && i2 == lP) ||
+    (lT == ff && lE == tt && i2 == mkNot lP) ||
+    (lT == tt && i2 == mkOr lP lE) ||
+    (lE == ff && i2 == mkAnd lP lT) ||
+    (lT == ff && i2 == mkAnd (mkNot lP) lE) ||
+    (lE == tt && i2 == mkOr (mkNot lP) lT) ||
+    (match lP with
+     | mkNot p => (lE == tt && i2 == mkOr p lT) || (lT == ff && i2 == mkAnd p lE)
+     | _ => false)
+  | _ => false
+
+/-- verit_ite_simplify: `compare_ite(lhs, rhs) or compare_ite(rhs, lhs)` -/
+def iteSimplify (cl : List Tm) : Except Err Seq :=
+  match goalEq cl with
+  | none => .error .verit
+  | some (g, lhs, rhs) =>
+    if compareIteEv lhs rhs || compareIteBool lhs rhs || compareIteEv rhs lhs || compareIteBool rhs lhs
+    then .ok ⟨[], g⟩ else .error .verit
+
+/-- verit_connective_def, the quantifier-free cases (as fixed by C18-12):
+`(p <--> q) <--> (p --> q) & (q --> p)` and `(if p then q else r) <--> (p --> q) & (~p --> r)`.
+The case `?x. P <--> ~!x. ~P` needs binders: instances with binders are not given to the model. -/
+def connectiveDef (cl : List Tm) : Except Err Seq :=
+  match goalEq cl with
+  | none => .error .verit
+  | some (g, lhs, rhs) =>
+    match destEq lhs with
+    | some (_, p1, p2) =>
+      match rhs with
+      | mkAnd (mkImp q1 q2) (mkImp o1 o2) =>
+        if q1 == p1 && o2 == p1 && p2 == q2 && o1 == p2 then .ok ⟨[], g⟩ else .error .verit
+      | _ => .error .verit
+    | none =>
+      match lhs, rhs with
+      | mkIte p1 p2 p3, mkAnd (mkImp q1 q2) (mkImp o1 o2) =>
+        if q1 == p1 && o1 == mkNot p1 && p2 == q2 && o2 == p3 then .ok ⟨[], g⟩ else .error .verit
+      | _, _ => .error .verit
+
+/-- the loop `all(g == Not(p) for g, p in zip(goal_neg_tms, input_prop))` -/
+def negsOf : List Tm → List Tm → Bool
+  | g :: gs, p :: ps => g == mkNot p && negsOf gs ps
+  | _, _ => true
+
+/-- verit_subproof (as fixed by C18-10): the premises are the assumptions of the subproof followed
+by its last step; the discharged assumptions disappear from the hypotheses -/
+def subproof (cl : List Tm) (ps : List Seq) : Except Err Seq :=
+  if cl.length ≤ 1 then .error .verit
+  else if ps.length == 0 then .error .verit
+  else if cl.length != ps.length then .error .verit
+  else
+    match ps.getLast?, cl.getLast? with
+    | some last, some gc =>
+      let input := ps.dropLast.map (·.prop)
+      if negsOf cl.dropLast input && gc == last.prop then
+        .ok ⟨dedup ((ps.flatMap (·.hyps)).filter (fun h => !input.contains h)) [], mkOrs cl⟩
+      else .error .verit
+    | _, _ => .error .verit
+
 end Holpy.C18
